@@ -1,4 +1,5 @@
 import LyModel.Props.C11
+import LyModel.Props.C11Range
 #print axioms LyModel.Props.C11.iff_compile_correct_fails
 #print axioms LyModel.Props.C11.iff_compile_correct_partial
 #print axioms LyModel.Props.C11.iff_compile_sound
@@ -6,3 +7,8 @@ import LyModel.Props.C11
 #print axioms LyModel.Props.C11.iff_rejects_ungrammatical_partial
 #print axioms LyModel.Props.C11.iff_getop_setop
 #print axioms LyModel.Props.C11.iff_pack_readback
+#print axioms LyModel.Props.C11.validate_range_correct
+#print axioms LyModel.Props.C11.range_subset_sound_fails
+#print axioms LyModel.Props.C11.range_subset_sound_partial
+#print axioms LyModel.Props.C11.range_parse_safe_fails
+#print axioms LyModel.Props.C11.range_parse_safe_partial
